@@ -11,6 +11,7 @@ mod c05;
 mod c11;
 mod c10;
 mod c03;
+mod c01;
 mod vp8lbits;
 mod animgen;
 mod webpfile;
@@ -82,6 +83,7 @@ fn main() {
         "C11" => c11::run(&o),
         "C10" => c10::run(&o),
         "C03" => c03::run(&o),
+        "C01" => c01::run(&o),
         _ => {
             eprintln!("unknown property {prop}");
             std::process::exit(2);
